@@ -23,12 +23,13 @@ EXPLANATION = (
     "infer_series_schema / _create_index forward dtype, checks, nullable (and name) from the statistics entry of the same "
     "key into the Column / Index / SeriesSchema constructors, and coerce=True keeps inferred dtypes reachable; (R6) the "
     "bound-consistency guard that serialisation runs (parse_checks) rejects the inclusive pair only for min > max, strictly "
-    "- tight bounds of constant data are equal. NOT "
+    "- tight bounds of constant data are equal. (R7) definite assignment: no function of schema inference / statistics reads a local that a branch-only path from its entry leaves unassigned (CFG may-analysis, optimistic about try bodies and loop bodies, correlated guards pruned) - an UnboundLocalError there would escape infer_schema. " 
+    "NOT "
     "decided: numeric tightness (float rounding of large integers), NaT/inf, mixed-object inference, survival through "
     "serialisation on data."
 )
 LEVEL_RULE = "one obligation per statistics key / constructor keyword / data view"
-FLOORS = {"R1": 6, "R2": 9, "R3": 2, "R4": 10, "R5": 8, "R6": 1}
+FLOORS = {"R1": 6, "R2": 9, "R3": 2, "R4": 10, "R5": 8, "R6": 1, "R7": 1}
 
 STATS = "pandera/schema_statistics/pandas.py"
 INFER = "pandera/schema_inference/pandas.py"
@@ -382,6 +383,8 @@ def r6_equal_bounds_serialise(ctx):
 
 
 def run(ctx):
+    from ..defassign import check_modules
+    check_modules(ctx, "R7", ('pandera/schema_inference/pandas.py', 'pandera/schema_statistics/pandas.py'), "escapes infer_schema")
     r6_equal_bounds_serialise(ctx)
     r1_bounds(ctx)
     r2_provenance(ctx)
